@@ -66,21 +66,45 @@ def _warn_error(msg, *a, **k):
     raise UserWarning(msg)
 
 
-def run_tracker(lines, werr=False):
-    """Run the real main() on the given pipe content.  Returns (deleted, pipe)."""
+class TrackerKilled(Exception):
+    pass
+
+
+def run_tracker(lines, werr=False, fail=()):
+    """Run the real main() on the given pipe content.  Returns (deleted, pipe).  `fail`: names whose clean-up raises
+    (a folder that is already gone, ...) - the attempt is still recorded."""
     import joblib.externals.loky.backend.resource_tracker as rt
     deleted = []
     pipe = Lines(lines)
+    ignored = set()
+
+    def _signal(sig, handler):
+        if handler == 1:
+            ignored.add(int(sig))
+
+    def _sigmask(how, sigs):
+        # the tracker is spawned with SIGINT / SIGTERM blocked: one that arrived meanwhile is delivered at this point
+        for sg in sigs:
+            if int(sg) not in ignored:
+                raise TrackerKilled("signal %d is unblocked while its default action (terminate) is still installed: "
+                                    "a signal received during start-up kills the tracker, everything registered leaks" % int(sg))
+
+    def _cleanup(kind):
+        def fn(name):
+            deleted.append((kind, name))
+            if name in fail:
+                raise FileNotFoundError(2, "No such file or directory", name)
+        return fn
     saved = dict(sys=rt.sys, signal=rt.signal, open=rt.__dict__.get("open", None), funcs=dict(rt._CLEANUP_FUNCS),
                  warnings=rt.warnings)
     rt.sys = types.SimpleNamespace(stdin=io.StringIO(), stdout=io.StringIO(), platform="linux",
                                    excepthook=lambda *a: None, exc_info=lambda: (None, None, None))
-    rt.signal = types.SimpleNamespace(signal=lambda *a: None, SIGINT=2, SIGTERM=15, SIG_IGN=1, SIG_UNBLOCK=1,
-                                      pthread_sigmask=lambda *a: None)
+    rt.signal = types.SimpleNamespace(signal=_signal, SIGINT=2, SIGTERM=15, SIG_IGN=1, SIG_UNBLOCK=1,
+                                      pthread_sigmask=_sigmask)
     rt.open = lambda fd, mode: pipe
     rt.warnings = types.SimpleNamespace(warn=_warn_error if werr else (lambda *a, **k: None))
-    rt._CLEANUP_FUNCS["file"] = lambda name: deleted.append(("file", name))
-    rt._CLEANUP_FUNCS["folder"] = lambda name: deleted.append(("folder", name))
+    rt._CLEANUP_FUNCS["file"] = _cleanup("file")
+    rt._CLEANUP_FUNCS["folder"] = _cleanup("folder")
     try:
         rt.main(3, False)
     finally:
@@ -123,16 +147,17 @@ def _line(c, n, t):
     return ("%s:%s:%s\n" % (cmd, NAMES[n], TYPES[t])).encode("ascii"), (cmd, NAMES[n], TYPES[t])
 
 
-def _check_seq(triples, werr=False):
+def _check_seq(triples, werr=False, fail=()):
     lines, reqs = [], []
     for c, n, t in triples:
         ln, rq = _line(c, n, t)
         lines.append(ln)
         reqs.append(rq)
     try:
-        got, pipe = run_tracker(lines, werr)
+        got, pipe = run_tracker(lines, werr, fail)
     except Exception as e:
-        H.note("the tracker died with %s: %s (warnings as errors: %r); requests: %r" % (type(e).__name__, e, werr, lines))
+        H.note("the tracker died with %s: %s (warnings as errors: %r, failing clean-ups: %r); requests: %r" % (
+            type(e).__name__, e, werr, list(fail), lines))
         return False
     out, rest_files, rest_folders = model(reqs)
     k = len(out)
@@ -171,8 +196,9 @@ def ob_seq(c0: int, n0: int, t0: int, c1: int, n1: int, t1: int, c2: int, n2: in
         return H.verdict(_check_seq(triples))
 
 
-def ob_induct(ka: int, kd: int, ta: int, c: int, n: int, t: int, werr: bool) -> bool:
+def ob_induct(ka: int, kd: int, ta: int, c: int, n: int, t: int, werr: bool, fl: int) -> bool:
     """
+    pre: 0 <= fl <= 2
     pre: 0 <= ka <= 3 and 0 <= kd <= 3
     pre: 0 <= ta <= 1
     pre: 0 <= c <= 6 and 0 <= n <= 1 and 0 <= t <= 2
@@ -184,8 +210,9 @@ def ob_induct(ka: int, kd: int, ta: int, c: int, n: int, t: int, werr: bool) -> 
     # pre-state: name a registered ka times with type ta, name d registered kd times as a folder
     triples = [(0, 0, ta)] * ka + [(0, 1, 1)] * kd + [step]
     we = bool(werr)                      # the client runs with warnings turned into errors, or not
+    fail = [(), (NAMES[0],), (NAMES[1],)][H.select(fl, 0, 2)]      # the clean-up of one name raises (already gone)
     with H.native():
-        return H.verdict(_check_seq(triples, we))
+        return H.verdict(_check_seq(triples, we, fail))
 
 
 def ob_counts(k_reg: int, k_unlink: int, folder: bool) -> bool:
